@@ -433,12 +433,13 @@ impl Engine for Math {
             ("C12", Tier::Quick) => Budget { random: 400_000, per_stratum: 4_000, strata },
             ("C12", Tier::Thorough) => Budget { random: 40_000_000, per_stratum: 200_000, strata },
             ("C17", Tier::Quick) => Budget { random: 2_000_000, per_stratum: 20_000, strata },
-            ("C17", Tier::Thorough) => Budget { random: 40_000_000, per_stratum: 200_000, strata },
+            ("C17", Tier::Thorough) => Budget { random: 400_000_000, per_stratum: 2_000_000, strata },
             ("C16", Tier::Quick) => Budget { random: 2_000_000, per_stratum: 30_000, strata: (0..11).collect() },
             ("C16", Tier::Thorough) => Budget { random: 60_000_000, per_stratum: 1_000_000, strata: (0..11).collect() },
             ("C15", Tier::Quick) => Budget { random: 150_000, per_stratum: 2_000, strata },
             (_, Tier::Quick) => Budget { random: 1_500_000, per_stratum: 20_000, strata },
-            (_, Tier::Thorough) => Budget { random: 15_000_000, per_stratum: 100_000, strata },
+            ("C15", Tier::Thorough) => Budget { random: 15_000_000, per_stratum: 100_000, strata },
+            (_, Tier::Thorough) => Budget { random: 150_000_000, per_stratum: 1_000_000, strata },
         }
     }
     fn exh_len(&self, prop: &str, tier: Tier) -> u64 {
